@@ -113,7 +113,7 @@ def distribution(cases, obs):
     for c, o in zip(cases, obs):
         out = o['out']
         if out[0] == 'some':
-            k = 'codes:' + ','.join(str(x) for x in sorted(set(out[2])))
+            k = 'codes:' + ','.join(str(x) for x in sorted(set(out[2]), key=repr))
         else:
             k = out[0]
         d[k] = d.get(k, 0) + 1
